@@ -575,3 +575,37 @@ func VH_C16_InvalidFiles() {
 	}
 	zzverif.Reach("rejected")
 }
+
+// ---- C16: nested blocks inside a realm ----------------------------------------------------------------------
+
+// VH_C16_RealmNestedBlock: a realm body with a nested block (a subsection such as auth_to_local_names) between two
+// kdc relations.  Whatever the relation inside the nested block is called - its tag is arbitrary lower-case text and
+// may coincide with a realm-level tag - it belongs to the subsection: the realm's own lists are what the realm-level
+// relations say.
+func VH_C16_RealmNestedBlock() {
+	name, tag := zzverif.String(2), zzverif.String(zzverif.Param("taglen"))
+	for j := 0; j < len(name); j++ {
+		zzverif.Assume(zzverif.And(name[j] >= 'a', name[j] <= 'z'))
+	}
+	for j := 0; j < len(tag); j++ {
+		zzverif.Assume(zzverif.Or(zzverif.And(tag[j] >= 'a', tag[j] <= 'z'), tag[j] == '_'))
+		if zzverif.Param("narrow") == 1 {
+			// quick tier: each byte is 'x' or the byte a realm-level tag of this length has there
+			ok := tag[j] == 'x'
+			for _, t := range []string{"kdc", "master_kdc", "admin_server", "kpasswd_server", "default_domain"} {
+				if len(t) == len(tag) {
+					ok = zzverif.Or(ok, tag[j] == t[j])
+				}
+			}
+			zzverif.Assume(ok)
+		}
+	}
+	lines := []string{" kdc = h1", " " + name + " = {", "   " + tag + " = x", " }", " kdc = h2", " admin_server = a"}
+	var r Realm
+	err := r.parseLines("R", lines)
+	zzverif.Assert("realm-with-nested-block-parses", err == nil)
+	zzverif.Assert("kdc-list-is-the-realm-level-relations", len(r.KDC) == 2 && r.KDC[0] == "h1:88" && r.KDC[1] == "h2:88")
+	zzverif.Assert("admin-server-is-the-realm-level-relation", len(r.AdminServer) == 1 && r.AdminServer[0] == "a")
+	zzverif.Assert("no-list-filled-from-the-subsection", len(r.MasterKDC) == 0 && r.DefaultDomain == "" && len(r.KPasswdServer) == 1 && r.KPasswdServer[0] == "a:464")
+	zzverif.Reach("done")
+}
